@@ -2,7 +2,8 @@
 import Verif.Common.Proto
 import Verif.C10.Model
 import Verif.C10.Mapper
-open Lean Verif.Proto Verif.C10 Verif.Py
+import Verif.C10.Compose
+open Lean Verif.Proto Verif.C10 Verif.Py Verif.C10.Compose
 
 namespace Verif.C10.Driver
 
@@ -126,6 +127,91 @@ def doStep (sch : Schema) (s : Suite) (j : Json) : Except String (Suite × Optio
       | _ => throw s!"bad step {k}"
     pure (stepAt s ti op)
 
+/-! ### the composed model (real files: C09 + C08) on the same steps -/
+
+def ofDT (s : String) : Except String C08.DType :=
+  match s with
+  | ":integer" => pure .integer
+  | ":string" => pure .string
+  | ":date" => pure .date
+  | _ => throw s!"bad datatype {s}"
+
+def ofFields09 (t : Json) : Except String (List C09.Field) := do
+  (← getArr t "fields").mapM (fun f => do
+    pure ({ name := (← getStr f "name").toList, dt := ← ofDT (← getStr f "dt") } : C09.Field))
+
+/-- the relation as `tsdb.write` leaves it for the initial rows, and a table synchronized with it -/
+def initCT (cd : Codec) (fields : List C09.Field) (t : T) : Except String CT := do
+  let ct0 : CT := { t := t, rel := { tx := some ⟨[], 0⟩ }, fields := fields }
+  match writeRows cd 1 ct0 false t.gz t.file with
+  | .error _ => throw "initial rows cannot be written"
+  | .ok rel =>
+    match syncC cd { ct0 with rel := rel } with
+    | .error _ => throw "initial rows cannot be read back"
+    | .ok ct => pure ct
+
+def doStepC (cd : Codec) (sch : Schema) (now : Nat) (cs : CSuite) (j : Json) :
+    Except String ((CSuite × Nat) × Option Err) := do
+  let k ← getStr j "k"
+  match k with
+  | "commit" => let (cs', e) := commitAllC cd now cs; pure ((cs', now + cs.length), e)
+  | "reload" => let (cs', e) := reloadAllC cd cs; pure ((cs', now), e)
+  | "reopen" => let (cs', e) := reloadAllC cd cs; pure ((cs', now), e)
+  | "noop" => pure ((cs, now), none)
+  | "alias" =>
+    let ti ← getNat j "t"
+    let si ← getNat j "src"
+    let opk ← getStr j "op"
+    match cs[si]? with
+    | none => throw "bad source table"
+    | some src =>
+      if opk == "append" || opk == "setitem" then
+        match getItem src.t (← getInt j "si") with
+        | .error e => pure ((cs, now), some e)
+        | .ok r =>
+          if opk == "append" then
+            let (cs', e) := stepAtC cs ti (Op.append r)
+            pure ((cs', now), e)
+          else
+            let i ← getInt j "i"
+            let (cs', e) := stepAtC cs ti (Op.setItem i r)
+            pure ((cs', now), e)
+      else
+        match iterSlice src.t (← ofSlice (← j.getObjVal? "ssl")) with
+        | .error e => pure ((cs, now), some e)
+        | .ok rs =>
+          if opk == "extend" then
+            let (cs', e) := stepAtC cs ti (Op.extend rs)
+            pure ((cs', now), e)
+          else
+            let sl ← ofSlice (← j.getObjVal? "sl")
+            let (cs', e) := stepAtC cs ti (Op.setSlice sl rs)
+            pure ((cs', now), e)
+  | "process" =>
+    let b ← getInt j "b"
+    let g ← getBool j "gz"
+    let script ← (← getArr j "script").mapM ofResp
+    pure (processC cd sch now cs b g script)
+  | _ =>
+    let ti ← getNat j "t"
+    let op : Op ← match k with
+      | "append" => do pure (Op.append (← ofRow (← j.getObjVal? "row")))
+      | "extend" => do pure (Op.extend (← ofRows (← j.getObjVal? "rows")))
+      | "setitem" => do pure (Op.setItem (← getInt j "i") (← ofRow (← j.getObjVal? "row")))
+      | "setslice" => do pure (Op.setSlice (← ofSlice (← j.getObjVal? "sl")) (← ofRows (← j.getObjVal? "rows")))
+      | "update" => do pure (Op.update (← getInt j "i") (← ofCols (← j.getObjVal? "cols")))
+      | "clear" => pure Op.clear
+      | _ => throw s!"bad step {k}"
+    let (cs', e) := stepAtC cs ti op
+    pure ((cs', now), e)
+
+/-- what is on disk for a relation: the raw lines of the active file and which physical forms exist;
+`same` = the composed table's bookkeeping equals the abstract model's table -/
+def obsRel (ct : CT) (t : Option T) : Json :=
+  Json.mkObj [("lines", jList cps ((ct.rel.read).getD [])),
+              ("tx", Json.bool ct.rel.tx.isSome), ("gzf", Json.bool ct.rel.gz.isSome),
+              ("same", Json.bool (decide (some ct.t = t)))]
+
 def intRange (lo hi : Int) : List Int :=
   (List.range (hi - lo + 1).toNat).map (fun (k : Nat) => lo + (k : Int))
 
@@ -176,24 +262,34 @@ def phasesOf (sch : Schema) (s : Suite) (j : Json) : Except String Json := do
     pure (jList obsPhase (processPhases sch s b script))
   | _ => pure Json.null
 
-def runSteps (sch : Schema) : Suite → List Json → Except String (List Json)
-  | _, [] => pure []
-  | s, j :: js => do
+def obsC (cs : CSuite) (s : Suite) (e : Option Err) (ot : List Nat) : Json :=
+  Json.mkObj [("e", jOptErr e), ("T", jList (fun k => match cs[k]? with
+    | some ct => obsRel ct s[k]?
+    | none => Json.null) ot)]
+
+def runSteps (cd : Codec) (sch : Schema) : Suite → CSuite → Nat → List Json → Except String (List Json)
+  | _, _, _, [] => pure []
+  | s, cs, now, j :: js => do
     let (s', e) ← doStep sch s j
+    let ((cs', now'), ec) ← doStepC cd sch now cs j
     let qs := match getArr j "qs" with | .ok l => l | .error _ => []
     let o ← obs s' e (getNats j "ot") qs
     let ph ← phasesOf sch s j
-    let o := o.setObjVal! "P" ph
-    let rest ← runSteps sch s' js
+    let o := (o.setObjVal! "P" ph).setObjVal! "R" (obsC cs' s' ec (getNats j "ot"))
+    let rest ← runSteps cd sch s' cs' now' js
     pure (o :: rest)
 
 def handle (j : Json) : Except String Json := do
   let tables ← (← getArr j "tables").mapM ofTable
-  let sch ← ofSchema (← j.getObjVal? "schema")
+  let schj ← getArr j "schema"
+  let sch ← ofSchema (Json.arr schj.toArray)
+  let cd : Codec := { tbl := ← (← getArr j "codec").mapM ofCps }
+  let fs ← schj.mapM ofFields09
+  let cs ← (tables.zip fs).mapM (fun p => initCT cd p.2 p.1)
   let steps ← getArr j "steps"
   let init ← obs tables none (List.range tables.length) []
-  let init := init.setObjVal! "P" Json.null
-  let rest ← runSteps sch tables steps
+  let init := (init.setObjVal! "P" Json.null).setObjVal! "R" (obsC cs tables none (List.range tables.length))
+  let rest ← runSteps cd sch tables cs 10 steps
   pure (Json.arr (init :: rest).toArray)
 
 end Verif.C10.Driver
